@@ -27,7 +27,8 @@ type c20Tok struct {
 	v float64
 }
 
-var c20Forms = []c20Tok{{"1", 1}, {"-2", -2}, {"+3", 3}, {".5", .5}, {"-.25", -.25}, {"10.5", 10.5}, {"0", 0}, {"007", 7}, {"+12.5", 12.5}, {"-0.75", -0.75}, {"+.5", .5}}
+var c20Forms = []c20Tok{{"1", 1}, {"-2", -2}, {"+3", 3}, {".5", .5}, {"-.25", -.25}, {"10.5", 10.5}, {"0", 0}, {"007", 7}, {"+12.5", 12.5}, {"-0.75", -0.75}, {"+.5", .5},
+	{"3.00000000000000000000", 3}, {"-0.1250000000000000000000000", -0.125}, {"000000000000000000000002.5", 2.5}} // 20 and more digits
 
 // command of the structured description
 type c20Cmd struct {
@@ -375,7 +376,7 @@ func init() {
 		ID:    "C20",
 		Level: "exploration",
 		Rule: "engine B over the two dialect grammars of the statement. Structure: every command sequence M|m (1 or 2 operand groups) + <=3 (thorough <=4) further commands over the dialect's verbs with 1 or 2 operand groups (implicit repetition), sub-path joins zM/zm, terminator z (generator) / optional z (converter), x 5 transforms / 4 (size,offset,outSize) triples x ADJ {0,3}. " +
-			"Lexis: for every verb, every number form {1,-2,+3,.5,-.25,10.5,0,007,+12.5,-0.75,+.5} in every operand position x every separator {space, comma, two spaces, nothing where the next sign or dot delimits}. Concat/MulAff3: all ordered triples of 8 matrices against float64 composition. Converter level: SVG files with <=3 paths x opacity attributes {absent,1,.5,.25} in both attribute spellings x 0..2 circles x {viewBox 0 0 48 48 at size 48, viewBox 4 -2 24 24 at size 24} through ParseFile. " +
+			"Lexis: for every verb, every number form {1,-2,+3,.5,-.25,10.5,0,007,+12.5,-0.75,+.5, three forms with 20 or more digits} in every operand position x every separator {space, comma, two spaces, nothing where the next sign or dot delimits}. Concat/MulAff3: all ordered triples of 8 matrices against float64 composition. Converter level: SVG files with <=3 paths x opacity attributes {absent,1,.5,.25} in both attribute spellings x 0..2 circles x {viewBox 0 0 48 48 at size 48, viewBox 4 -2 24 24 at size 24} through ParseFile. " +
 			"Expected calls are built from the structured description (not by parsing): first move => StartPath(adj), later moves => close-and-move, one ClosePathEndPath; absolute operands full transform, relative scale only, H/V matching axis, radii scale, flags unchanged, rotation/360; within 3 float32 ulp at the magnitude of the largest term (converter 4). " +
 			"distinct = hash of the emitted call kinds; non-trivial = string with an implicit repetition, a sub-path join or a non-space separator",
 		Assumptions: []string{"strings outside the two dialects (exponents, whitespace after a verb, commas in the converter, z not followed by a move or the end) are not generated"},
@@ -539,6 +540,12 @@ func c20Check(w *mc.W, cs *c20Case) {
 			g.SetDestination(&rd)
 			tf := c20Transforms[cs.TF]
 			tfName = tf.name
+			// the Generator had another (two-factor) transform before; with no transform in the
+			// case the identity is configured again explicitly
+			g.SetTransform(generate.Scale(3, 5), generate.Translate(1, 1))
+			if tf.tf == nil {
+				g.SetTransform()
+			}
 			if tf.tf != nil {
 				// the transform is configured from a slice the caller goes on to reuse: what counts is
 				// its content at the time of the call
@@ -548,11 +555,24 @@ func c20Check(w *mc.W, cs *c20Case) {
 					mine[i] = generate.Aff3{7, 0, 100, 0, -3, -100}
 				}
 			}
+			// the judged path is the second one this Generator emits: nothing of the first (pen,
+			// sub-path start, pending verb) carries over
+			if perr := g.SetPathData("M3 1.5l2 2q1 1 2 0zm1 1h2z", 1); perr != nil {
+				err = perr
+				return
+			}
+			rd.ResetLog()
 			err = g.SetPathData(d, cs.Adj)
 			want, mags = c20Expect(cs.Cmds, cs.Adj, c20GenXform(tf.tf))
 		} else {
 			c := c20Conv[cs.TF]
 			tfName = fmt.Sprintf("size %g offset %v outSize %g", c.size, c.off, c.outSize)
+			if perr := mdicons.ParsePathData(&rd, "M3 1.5l2 2q1 1 2 0zm1 1h2z", 1, c.size, c.off, c.outSize); perr != nil {
+				err = perr
+				return
+			}
+			rd.ClosePathEndPath()
+			rd.ResetLog()
 			err = mdicons.ParsePathData(&rd, d, cs.Adj, c.size, c.off, c.outSize)
 			want, mags = c20Expect(cs.Cmds, cs.Adj, c20ConvXform(cs.TF))
 			want = want[:len(want)-1] // ParsePathData leaves ending the path to ParsePath
